@@ -456,11 +456,11 @@ def rel_histogram(case):
     weighted = c.get('cycles') is not None and any(x != 1 for x in w_)
     groups, gnames = group_rows(c, axis)
     single = 'edges' in spec and len(spec['edges']) == 2
-    info = {'single_class': single, 'dim': dim, 'weighted': weighted, 'bins_kind': spec['kind'], 'axis': axis}
+    info = {'single_class': single, 'dim': dim, 'weighted': weighted, 'bins_kind': spec['kind'], 'axis': axis, 'extra_levels': len(gnames)}
     try:
         h = (lc.range_histogram(make_bins(spec), axis) if dim == 1 else lc.histogram(make_bins(spec), axis)).to_pandas()
     except Exception as e:
-        if dim == 2 and single:
+        if dim == 2 and single and not (axis is not None and not gnames):          # (no extra level: the grouping raised, not numpy)
             return [(W_H2_SINGLE, 'raised %r' % (e,))], None, False, info
         return [(W_RAISED, repr(e))], None, False, info
     lvl = ['range'] if dim == 1 else ['range', 'mean']
@@ -566,6 +566,8 @@ def gen_histogram_case(rng):
     axis = None
     if ix is not None and len(ix['names']) >= 2 and rng.random() < 0.7:
         axis = 'cycle_number'
+    elif ix is not None and len(ix['names']) == 1 and rng.random() < 0.5:
+        axis = 'cycle_number'          # along the only level (a rainflow collective): one group, the whole collective
     dim = rng.choice([1, 2])
     spec = gen_bins(rng, for_range=True)
     if dim == 2 and spec['kind'] != 'count':
@@ -1278,6 +1280,8 @@ def register_classes(res):
     res.classes['histogram2d_count_bins_along_axis'] = lambda d: (d.get('case', {}).get('rel') == 'histogram' and d.get('info', {}).get('dim') == 2
                                                                    and d.get('info', {}).get('bins_kind') == 'count' and d.get('info', {}).get('axis') is not None
                                                                    and 'stack' in str(d.get('detail')))
+    res.classes['histogram_axis_is_only_level'] = lambda d: (d.get('case', {}).get('rel') == 'histogram' and d.get('info', {}).get('axis') is not None
+                                                              and d.get('info', {}).get('extra_levels') == 0 and 'No group keys' in str(d.get('detail')))
     res.classes['collective_scalar_operand'] = lambda d: (d.get('case', {}).get('rel') == 'collective' and d.get('info', {}).get('scalar_operand') is True)
     res.classes['collective_with_cycles_column'] = lambda d: (d.get('case', {}).get('rel') == 'histogram' and d.get('info', {}).get('weighted') is True)
 
